@@ -78,7 +78,13 @@ func (h *harness) violate(sig map[string]any, replay any, confirm func() string,
 	if confirm != nil {
 		for i := 0; i < 5; i++ {
 			if got := confirm(); got != key {
-				h.rep.HarnessError("violation did not reproduce 5/5 (run %d gave %q): sig=%s %s", i, got, key, fmt.Sprintf(format, a...))
+				// Every call in this check is made from one goroutine on inputs the check owns, and the codec is a
+				// function of (table state, input): a wrong result that the same call does not give again depends on
+				// something left behind by earlier, unrelated calls - which is a violation of its own kind.
+				part, _ := sig["part"].(string)
+				h.rep.Violate(map[string]any{"kind": "result-depends-on-earlier-calls", "part": part},
+					map[string]any{"first": replay, "note": "the wrong result was observed once; repeating the same call alone gave " + got + " (run " + fmt.Sprint(i) + "), so the replay needs the calls made before it in the same process"},
+					"wrong result that depends on earlier unrelated calls: "+format, a...)
 				return
 			}
 		}
@@ -467,6 +473,7 @@ func TestCheck(t *testing.T) {
 	timed("P2a_P2c_decoder", "2", func() { partDecoder(h, "early") })
 	timed("P1_roundtrip_bfs", "1", func() { partRoundTrip(h) })
 	timed("P6_encoder_integers", "6", func() { partEncoderIntegers(h) })
+	timed("P7_retained_results", "7", func() { partRetained(h) })
 	timed("P2b_P5_decoder", "2", func() { partDecoder(h, "late") })
 	rep.Add("wall_ms_shard", time.Since(h.start).Milliseconds())
 }
